@@ -3,7 +3,7 @@ CONSTANTS
   Rows = {0, 1, 100}
   Cols = {0, 1, 2, 3}
   Ops = {"SetBit","ClearBit","SetRow","ClearRow","BulkSet","BulkClear","RoaringSet","RoaringClear","Snapshot","BgSnapshot","Reopen","Blocks","Row"}
-  Scope = "small"
+  Scope = "mini"
   Depth = 7
   ShapeName = "bwwb"
   InitMode = "any"
